@@ -54,8 +54,13 @@ Definition run_event (I : instance) (ev : val) : wld -> wld * val :=
          end
   | 2 => fin (fun _ : unit => vlist vnat (subs w)) (reset o_reset I w)
   | 3 => fin vnat (new_observer I (dec_okind (vnth ev 1)) w)
-  | 4 => fin (fun _ : unit => VL []) (unsubscribe (asN (vnth ev 1)) w)
-  | 5 => fin (fun _ : unit => VL []) (subscribe (asN (vnth ev 1)) w)
+  (* the script names observer objects by index; an index that names no object is the driver's IndexError *)
+  | 4 => if (asN (vnth ev 1) <? length (objs w))%nat
+         then fin (fun _ : unit => VL []) (unsubscribe (asN (vnth ev 1)) w)
+         else (w, VL [VI (exn_code EIndex)])
+  | 5 => if (asN (vnth ev 1) <? length (objs w))%nat
+         then fin (fun _ : unit => VL []) (subscribe (asN (vnth ev 1)) w)
+         else (w, VL [VI (exn_code EIndex)])
   | 6 => fin vnat (create_or_get I (dec_okind (vnth ev 1)) (asOpt (asLof asN) (vnth ev 2)) w)
   | 8 => fin (fun _ : unit => vlist vnat (subs w)) (env_step o_update I (asN (vnth ev 1)) (asZ (vnth ev 2)) w)
   | _ => (w, snapshot I w)
